@@ -590,4 +590,141 @@ theorem reduceAttributes_admits (cs : List (List Attr)) (hn : ∀ c ∈ cs, Nodu
         exact ⟨a, ha, same_trans has (same_symm hs)⟩
       simp [this]
 
+
+/-! ### where a merged attr comes from: its key and its sequence marker are those of some input attr -/
+
+/-- some attr of the classes has `m`'s key and `m`'s sequence marker -/
+def Origin (cs0 : List (List Attr)) (m : Attr) : Prop :=
+  ∃ c ∈ cs0, ∃ a ∈ c, a.same m = true ∧ a.seq = m.seq
+
+/-- every attr of the current classes is an attr of the original classes -/
+def FromOrig (cs0 cs : List (List Attr)) : Prop := ∀ c ∈ cs, ∀ a ∈ c, ∃ c0 ∈ cs0, a ∈ c0
+
+theorem mem_popAt {l : List Attr} {pos : Nat} {a : Attr} (h : a ∈ popAt l pos) : a ∈ l := by
+  simp only [popAt, List.mem_append] at h
+  rcases h with h | h
+  · exact List.mem_of_mem_take h
+  · exact List.mem_of_mem_drop h
+
+theorem reduceOne_origin (cs0 : List (List Attr)) (k : Attr) (cs : List (List Attr)) :
+    ∀ (done : List (List Attr)) (R : List Attr) (added opt : Bool),
+      FromOrig cs0 cs → FromOrig cs0 done → (∀ m ∈ R, Origin cs0 m) →
+      FromOrig cs0 (reduceOne k cs done R added opt).1 ∧ ∀ m ∈ (reduceOne k cs done R added opt).2.1, Origin cs0 m := by
+  induction cs with
+  | nil =>
+    intro done R added opt _ hd hR
+    simp only [reduceOne]
+    exact ⟨fun c hc => hd c (by simpa using hc), hR⟩
+  | cons obj rest ih =>
+    intro done R added opt hcs hd hR
+    have hrest : FromOrig cs0 rest := fun c hc => hcs c (by simp [hc])
+    have hobj : ∀ a ∈ obj, ∃ c0 ∈ cs0, a ∈ c0 := hcs obj (by simp)
+    have hdone : FromOrig cs0 (obj :: done) := by
+      intro c hc; simp only [List.mem_cons] at hc
+      rcases hc with rfl | hc
+      · exact hobj
+      · exact hd c hc
+    simp only [reduceOne]
+    cases hf : findAttr obj k with
+    | none => exact ih _ _ _ _ hrest hdone hR
+    | some pos =>
+      simp only
+      cases hg : obj[pos]? with
+      | none => exact ih _ _ _ _ hrest hdone hR
+      | some found =>
+        have hfm : found ∈ obj := List.mem_of_getElem? hg
+        have hpop : FromOrig cs0 (popAt obj pos :: done) := by
+          intro c hc; simp only [List.mem_cons] at hc
+          rcases hc with rfl | hc
+          · exact fun a ha => hobj a (mem_popAt ha)
+          · exact hd c hc
+        have hfo : Origin cs0 found := by
+          obtain ⟨c0, hc0, hmem⟩ := hobj found hfm
+          exact ⟨c0, hc0, found, hmem, same_refl _, rfl⟩
+        simp only
+        cases added with
+        | false =>
+          simp only [Bool.not_false, if_true]
+          apply ih _ _ _ _ hrest hpop
+          intro m hm
+          simp only [List.mem_append, List.mem_singleton] at hm
+          rcases hm with hm | rfl
+          · exact hR m hm
+          · exact hfo
+        | true =>
+          simp only [Bool.not_true, Bool.false_eq_true, if_false]
+          apply ih _ _ _ _ hrest hpop
+          cases hl : R.getLast? with
+          | none => simpa using hR
+          | some l =>
+            intro m hm
+            simp only [List.mem_append, List.mem_singleton] at hm
+            rcases hm with hm | rfl
+            · exact hR m (List.dropLast_subset _ hm)
+            · obtain ⟨c, hc, a, ha, hs, hq⟩ := hR l (List.mem_of_getLast? hl)
+              refine ⟨c, hc, a, ha, ?_, ?_⟩
+              · rw [same_comm, merge_same, same_comm]; exact hs
+              · simpa [mergeAttributes] using hq
+
+theorem reduceStep_origin (cs0 : List (List Attr)) (st : RState) (k : Attr)
+    (h1 : FromOrig cs0 st.classes) (h2 : ∀ m ∈ st.result, Origin cs0 m) :
+    ∀ st', reduceStep (some st) k = some st' → FromOrig cs0 st'.classes ∧ ∀ m ∈ st'.result, Origin cs0 m := by
+  intro st' hst
+  have ho := reduceOne_origin cs0 k st.classes [] st.result false false h1 (by intro c hc; simp at hc) h2
+  simp only [reduceStep] at hst
+  generalize reduceOne k st.classes [] st.result false false = r at ho hst
+  obtain ⟨cs, result, optional⟩ := r
+  simp only at ho hst
+  cases optional with
+  | false =>
+    simp only [Bool.false_eq_true, if_false, Option.some.injEq] at hst
+    subst hst; exact ho
+  | true =>
+    simp only [if_true] at hst
+    cases hl : result.getLast? with
+    | none => simp [hl] at hst
+    | some l =>
+      simp only [hl, Option.some.injEq] at hst
+      subst hst
+      refine ⟨ho.1, ?_⟩
+      intro m hm
+      simp only [List.mem_append, List.mem_singleton] at hm
+      rcases hm with hm | rfl
+      · exact ho.2 m (List.dropLast_subset _ hm)
+      · obtain ⟨c, hc, a, ha, hs, hq⟩ := ho.2 l (List.mem_of_getLast? hl)
+        exact ⟨c, hc, a, ha, by simpa [Attr.same] using hs, by simpa using hq⟩
+
+theorem reduceFold_origin (cs0 : List (List Attr)) (S : List Attr) :
+    ∀ (st : RState), FromOrig cs0 st.classes → (∀ m ∈ st.result, Origin cs0 m) →
+      ∀ st', S.foldl reduceStep (some st) = some st' → ∀ m ∈ st'.result, Origin cs0 m := by
+  induction S with
+  | nil => intro st _ h2 st' hst; simp at hst; subst hst; exact h2
+  | cons k S ih =>
+    intro st h1 h2 st' hst
+    simp only [List.foldl_cons] at hst
+    cases hs : reduceStep (some st) k with
+    | none =>
+      rw [hs] at hst
+      have : ∀ S : List Attr, S.foldl reduceStep none = none := by
+        intro S; induction S with
+        | nil => rfl
+        | cons _ _ ih => simpa [reduceStep] using ih
+      rw [this] at hst; cases hst
+    | some st1 =>
+      rw [hs] at hst
+      obtain ⟨g1, g2⟩ := reduceStep_origin cs0 st k h1 h2 st1 hs
+      exact ih st1 g1 g2 st' hst
+
+/-- every attr `reduce_attributes` returns has the key and the sequence marker of an attr of one
+of the classes -/
+theorem reduceAttributes_origin (cs : List (List Attr)) (R : List Attr) (h : reduceAttributes cs = some R) :
+    ∀ m ∈ R, Origin cs m := by
+  simp only [reduceAttributes, Option.map_eq_some_iff] at h
+  obtain ⟨st', hst, rfl⟩ := h
+  have := reduceFold_origin (sortByLenDesc cs) (sortedAttrs (sortByLenDesc cs)) ⟨sortByLenDesc cs, []⟩
+    (fun c hc a ha => ⟨c, hc, ha⟩) (by simp) st' hst
+  intro m hm
+  obtain ⟨c, hc, a, ha, hs, hq⟩ := this m hm
+  exact ⟨c, (mem_sortByLenDesc cs c).1 hc, a, ha, hs, hq⟩
+
 end Xs.Samples
